@@ -81,3 +81,14 @@ Print Assumptions C16_model_tree_wf.
 Theorem C16_model_convert_total : forall c src, bytes_ok src -> exists o, ConvertModelFn c src = Ok o.
 Proof. exact ConvertModelFn_total. Qed.
 Print Assumptions C16_model_convert_total.
+
+(* the back-link clause is FALSE of the faithful model - the recorded finding as a theorem: for
+   the source  ![x[^1]](/u) / empty line / [^1]: n  the output has the item (id="fn:1") and its
+   back-link (href="#fnref:1") but no element with id="fnref:1", in every renderer configuration.
+   goldmark gives the same bytes (case kind ConvertFn; known_findings.json). *)
+Require Import GM.proofs.FootnoteFinding.
+Theorem C16_backlink_clause_refuted : forall u x h ta, exists o,
+  ConvertModelFn {| unsafe := u; xhtml := x; hardwraps := h; talign := ta |} dangling_src = Ok o /\
+  occurs id_fn1 o = true /\ occurs href_fnref1 o = true /\ occurs id_fnref1 o = false.
+Proof. exact backlink_dangling_witness. Qed.
+Print Assumptions C16_backlink_clause_refuted.
